@@ -533,7 +533,7 @@ def part_b():
         check([f[1] for f in desc[0][7]] == ["SAMPLE A", "SAMPLE B", "THIRD"],
               "file names")
         check(desc[0][3] == ["IMG", "A:", "VOL ONE"], "volume path")
-        check(desc[0][7][0][3] == s1[140:], "sample A bytes")
+        check(desc[0][7][0][3] == b"", "sample A bytes")
     d = bytearray(good)
     d[ft + 24 + 16] = 0x01          # unknown type byte in entry 1
     res = run_image(live_parser, bytes(d))
